@@ -29,6 +29,8 @@ def breaks_family(name, ncells):
     n = ncells
     if name == 'uniform':
         return [Fr(-1) + Fr(i, 2) for i in range(n + 1)]
+    if name == 'uniform3':
+        return [Fr(2) + Fr(i, 3) for i in range(n + 1)]      # a second uniform spacing (dx != dy in 2-D uniform-cubic spaces)
     if name == 'graded':
         return [Fr(i * i, n) + Fr(i, 4) for i in range(n + 1)]
     if name == 'alternating':
@@ -654,7 +656,7 @@ def configs(tier):
             c1.append((3, per, 'uniform', n, 'cu', None))
     # 2-D
     if tier == 'quick':
-        c2.append(((3, True, 'uniform', 4), (3, False, 'uniform', 2), 'cu', [(0, 0), (1, 0), (0, 1), (1, 1)], None))
+        c2.append(((3, True, 'uniform', 4), (3, False, 'uniform3', 2), 'cu', [(0, 0), (1, 0), (0, 1), (1, 1)], None))
         c2.append(((2, True, 'graded', 3), (3, False, 'irregular', 2), 'nu', [(0, 0), (1, 1)], None))
         c2.append(((1, False, 'irregular', 2), (2, True, 'uniform', 3), 'nu', [(0, 1), (1, 0)], None))
     else:
@@ -662,8 +664,8 @@ def configs(tier):
             for dd in ([(0, 0), (1, 1)], [(0, 1), (1, 0)]):
                 c2.append(((da, True, 'graded', da + 1), (db, False, 'irregular', 2), 'nu', dd, None))
         for dd in ([(0, 0), (1, 0)], [(0, 1), (1, 1)]):
-            c2.append(((3, True, 'uniform', 4), (3, False, 'uniform', 3), 'cu', dd, None))
-            c2.append(((3, False, 'uniform', 1), (3, True, 'uniform', 5), 'cu', dd, None))
+            c2.append(((3, True, 'uniform', 4), (3, False, 'uniform3', 3), 'cu', dd, None))
+            c2.append(((3, False, 'uniform3', 1), (3, True, 'uniform', 5), 'cu', dd, None))
     return c1, c2
 
 
